@@ -28,9 +28,37 @@ Fixpoint path_eqb (a b : path) : bool :=
 Definition path_in (p : path) (l : list path) : bool := existsb (path_eqb p) l.
 
 (* files only; directories are observed by the snapshots of the correspondence run *)
-Definition fs := path -> bool.
-Definition fs_empty : fs := fun _ => false.
-Definition fs_write (f : fs) (p : path) : fs := fun q => if path_eqb q p then true else f q.
+(* a file system: directories, and files with a content id and a mode (so that "create, modify or delete" is expressible:
+   two file systems are equal iff every path has the same kind, content and mode) *)
+Inductive entry := EDir | EFile (content mode : N).
+Definition fs := path -> option entry.
+Definition fs_empty : fs := fun _ => None.
+Definition is_file (e : option entry) : bool := match e with Some (EFile _ _) => true | _ => false end.
+Definition is_dir (e : option entry) : bool := match e with Some EDir => true | _ => false end.
+Definition is_some (e : option entry) : bool := match e with Some _ => true | None => false end.
+
+(* the non-empty proper prefixes of a path: what `output_path.parent.mkdir(parents=True, exist_ok=True)` creates *)
+Fixpoint parents_from (pre p : path) : list path :=
+  match p with
+  | [] => []
+  | [x] => []
+  | x :: r => (pre ++ [x]) :: parents_from (pre ++ [x]) r
+  end.
+Definition parents (p : path) : list path := parents_from [] p.
+
+Definition gen_content : N := 1.    (* abstract id of "what this run renders" *)
+Definition gen_mode : N := 292.     (* 0o444, SetFileMode with the default --file-mode *)
+(* mkdir -p of the parents, then (over)write the file *)
+Definition fs_write (f : fs) (p : path) : fs :=
+  fun q => if path_eqb q p then Some (EFile gen_content gen_mode)
+           else match f q with
+                | None => if path_in q (parents p) then Some EDir else None
+                | e => e
+                end.
+(* open() on a directory, or mkdir through a regular file, raises *)
+Definition write_blocked (f : fs) (p : path) : bool := is_dir (f p) || existsb (fun q => is_file (f q)) (parents p).
+Definition fs_mkdirs (f : fs) (p : path) : fs :=
+  fun q => match f q with None => if path_eqb q p || path_in q (parents p) then Some EDir else None | e => e end.
 
 (* ------------------------------------------------------------------------------------------ *)
 (* command line flags (the finite part of a configuration) and translated expressions          *)
@@ -162,7 +190,11 @@ Record code := {
   (* which of the three --list-inputs repairs the tree under test has (shape variants recognised by the translator) *)
   k_fix_lookup : bool;               (* _list_inputs_only also lists _dependency_source_files() *)
   k_fix_nonj2 : bool;                (* DSDLTemplateLoader.get_templates: every servable file that is not a Python package file *)
-  k_fix_suptpl : bool                (* SupportGenerator._get_templates_by_support_type: the template the loader chain resolves *)
+  k_fix_suptpl : bool;               (* SupportGenerator._get_templates_by_support_type: the template the loader chain resolves *)
+  (* effect scan of every function on the listing / dry-run call path (runner, generator constructors, loaders, namespace
+     tree, generate_all prologues, ...): no file-system effect and no call of an effectful sink (_generate_code,
+     _handle_overwrite, _copy_header_using_line_pps, post-processor __call__) outside an `if not is_dryrun:` block *)
+  k_path_pure : bool
 }.
 
 (* ------------------------------------------------------------------------------------------ *)
@@ -202,7 +234,9 @@ Record tfile := {
   tf_path : path;
   tf_j2 : bool;           (* suffix == TEMPLATE_SUFFIX *)
   tf_py : bool;           (* .py/.pyc/.pyo or below __pycache__: what makes the directory a Python package *)
-  tf_cls : option cls     (* top-level file whose stem is a class name *)
+  tf_cls : option cls;    (* top-level file whose stem is a class name *)
+  tf_refs : list str;     (* constant targets of its include / import / from-import / extends statements *)
+  tf_dyn : bool           (* has such a statement with a computed target (include x | type_to_template): any class template *)
 }.
 Notation tdir := (list tfile) (only parsing).
 
@@ -221,14 +255,14 @@ Record langinfo := {
   l_templates : tdir;            (* everything PackageLoader(<lang>, 'templates').list_templates() names *)
   l_support_dir : tdir;          (* everything PackageLoader(<lang>, 'support').list_templates() names *)
   l_sup_ser : list sres;         (* list_support_files(SERIALIZATION_SUPPORT) *)
-  l_sup_type : list sres         (* list_support_files(TYPE_SUPPORT) *)
+  l_sup_type : list sres;        (* list_support_files(TYPE_SUPPORT) *)
+  l_properties : path            (* lang/properties.yaml: the built-in configuration of every language *)
 }.
 
 Record inputs := {
   i_roots : list dtype;          (* types of the root namespace directory *)
   i_lookup : list dtype;         (* types reachable through --lookup-dir *)
-  i_root_dir : path;             (* resolved root namespace directory *)
-  i_loaded_types : list str      (* template names the type generator's environment loads while rendering (measured) *)
+  i_root_dir : path              (* resolved root namespace directory *)
 }.
 
 Record cfg := {
@@ -238,6 +272,7 @@ Record cfg := {
   c_stem : option str;                (* --namespace-output-stem *)
   c_templates : option tdir;          (* --templates DIR: every file below DIR *)
   c_support_templates : option tdir;  (* --support-templates DIR *)
+  c_config_files : list path;         (* --configuration FILE... *)
   c_outdir : path
 }.
 
@@ -341,7 +376,7 @@ Definition item_template_ok (c : cfg) (g : genid) (it : item) : bool :=
   end.
 
 (* ---- running one generator ---------------------------------------------------------------- *)
-Inductive result := Ok | Rejected | NoTemplate | Exists.
+Inductive result := Ok | Rejected | NoTemplate | Exists | IoError.
 Definition is_ok (r : result) : bool := match r with Ok => true | _ => false end.
 
 Definition leaf_guard (k : code) (g : genid) (it : item) : bool :=
@@ -358,7 +393,8 @@ Fixpoint gen_all (k : code) (c : cfg) (g : genid) (dry aow : bool) (its : list i
   | it :: r =>
       if negb (item_template_ok c g it) then (f, acc, NoTemplate)
       else if (if leaf_guard k g it then negb dry else true) then
-        if f (it_path it) && negb aow then (f, acc, Exists)
+        if is_some (f (it_path it)) && negb aow then (f, acc, Exists)        (* _handle_overwrite *)
+        else if write_blocked f (it_path it) then (f, acc, IoError)
         else gen_all k c g dry aow r (fs_write f (it_path it)) (acc ++ [it_path it])
       else gen_all k c g dry aow r f (acc ++ [it_path it])
   end.
@@ -422,9 +458,13 @@ Definition step (k : code) (c : cfg) (i : inputs) (st : state) (a : eact) : stat
 Definition trace_of (k : code) (c : cfg) : list eact :=
   fst (trace (c_flags c) (sgs_of k (c_flags c)) (nse_of k c) (k_prog k) false).
 
+(* what a file-system effect somewhere on the call path outside the dry-run guards amounts to (k_path_pure = false):
+   the output directory appears in every mode *)
+Definition path_effect (k : code) (c : cfg) (f : fs) : fs := if k_path_pure k then f else fs_mkdirs f (c_outdir c).
+
 Definition run (k : code) (c : cfg) (i : inputs) (f : fs) : state :=
   if beval (c_flags c) false false false (k_reject k) then (f, [], Rejected)
-  else fold_left (step k c i) (trace_of k c) (f, [], Ok).
+  else fold_left (step k c i) (trace_of k c) (path_effect k c f, [], Ok).
 
 (* ---- the mode variants of a configuration ------------------------------------------------- *)
 Definition set_modes (fl : flags) (dry lo li : bool) : flags :=
@@ -432,7 +472,7 @@ Definition set_modes (fl : flags) (dry lo li : bool) : flags :=
      f_lc := f_lc fl; f_now := f_now fl; f_embed := f_embed fl |}.
 Definition with_flags (c : cfg) (fl : flags) : cfg :=
   {| c_lang := c_lang c; c_flags := fl; c_ext := c_ext c; c_stem := c_stem c; c_templates := c_templates c;
-     c_support_templates := c_support_templates c; c_outdir := c_outdir c |}.
+     c_support_templates := c_support_templates c; c_config_files := c_config_files c; c_outdir := c_outdir c |}.
 Definition real_of (c : cfg) : cfg := with_flags c (set_modes (c_flags c) false false false).
 Definition lo_of (c : cfg) : cfg := with_flags c (set_modes (c_flags c) (f_dry (c_flags c)) true (f_li (c_flags c))).
 Definition li_of (c : cfg) : cfg := with_flags c (set_modes (c_flags c) (f_dry (c_flags c)) false true).
@@ -440,22 +480,64 @@ Definition dry_of (c : cfg) : cfg := with_flags c (set_modes (c_flags c) true fa
 
 (* ---- what influences the output of the real run ------------------------------------------- *)
 
-Definition resolved_paths (ch : list tdir) (names : list str) : list path :=
-  flat_map (fun n => match resolve_name ch n with Some f => [tf_path f] | None => [] end) names.
+(* ---- the templates a generator's environment can load: DERIVED from the template reference graph ---------------- *)
+Definition tfile_mem (f : tfile) (l : list tfile) : bool := existsb (fun g => path_eqb (tf_path f) (tf_path g)) l.
+Definition has_cls (f : tfile) : bool := match tf_cls f with Some _ => true | None => false end.
+Definition class_files (ch : list tdir) : list tfile := filter (fun f => tf_j2 f && has_cls f) (concat ch).
+Definition resolve_names (ch : list tdir) (names : list str) : list tfile :=
+  flat_map (fun n => match resolve_name ch n with Some f => [f] | None => [] end) names.
+(* what loading f can make the environment load next *)
+Definition step_refs (ch : list tdir) (f : tfile) : list tfile :=
+  resolve_names ch (tf_refs f) ++ (if tf_dyn f then class_files ch else []).
+Fixpoint closure_go (ch : list tdir) (fuel : nat) (todo visited : list tfile) : list tfile :=
+  match fuel with
+  | O => visited
+  | S n => match todo with
+           | [] => visited
+           | f :: r => if tfile_mem f visited then closure_go ch n r visited
+                       else closure_go ch n (step_refs ch f ++ r) (f :: visited)
+           end
+  end.
+Definition tpl_closure (ch : list tdir) (entries : list tfile) : list tfile :=
+  let n := length (concat ch) in closure_go ch (S n * S (S n) + length entries) entries [].
 
-(* the support generator's environment loads exactly the .j2 resources it renders (by name, through its chain) *)
-Definition support_loaded (k : code) (c : cfg) (omit : bool) : list str :=
-  map sr_name (filter sr_j2 (support_resources k c omit)).
+(* entry templates of the type generator: the class templates that can be selected for a generated item
+   (over-approximation: every file named after a class on the item's search path) *)
+Definition kinds_generated (k : code) (c : cfg) (i : inputs) : list kind :=
+  flat_map (fun it => match it_kind it with Some kd => [kd] | None => [] end) (type_items k c i).
+Definition type_entries (k : code) (c : cfg) (i : inputs) : list tfile :=
+  filter (fun f => match tf_cls f with
+                   | Some x => existsb (fun kd => existsb (cls_eqb x) (candidates kd)) (kinds_generated k c i)
+                   | None => false end)
+         (class_files (chain c GTypes)).
+Definition type_templates (k : code) (c : cfg) (i : inputs) : list tfile :=
+  tpl_closure (chain c GTypes) (type_entries k c i).
+
+(* entry templates of the support generator: the .j2 resources it renders, by name through its chain *)
+Definition support_entries (k : code) (c : cfg) (omit : bool) : list tfile :=
+  resolve_names (chain c GSupport) (map sr_name (filter sr_j2 (support_resources k c omit))).
+Definition support_templates (k : code) (c : cfg) (omit : bool) : list tfile :=
+  tpl_closure (chain c GSupport) (support_entries k c omit).
+(* resources copied verbatim *)
+Definition support_copied (k : code) (c : cfg) (omit : bool) : list path :=
+  map sr_path (filter (fun r => negb (sr_j2 r)) (support_resources k c omit)).
 
 Definition influences_of (k : code) (c : cfg) (i : inputs) (a : eact) : list path :=
   match a with
-  | EGenerate GTypes _ _ _ _ => resolved_paths (chain c GTypes) (i_loaded_types i) ++ dsdl_influences k c i
-  | EGenerate GSupport _ _ omit _ => resolved_paths (chain c GSupport) (support_loaded k c omit)
+  | EGenerate GTypes _ _ _ _ => map tf_path (type_templates k c i) ++ dsdl_influences k c i
+  | EGenerate GSupport _ _ omit _ => map tf_path (support_templates k c omit) ++ support_copied k c omit
   | _ => []
   end.
 
+(* templates and DSDL files that influence the real run's output *)
 Definition influence_set (k : code) (c : cfg) (i : inputs) : list path :=
   flat_map (influences_of k c i) (trace_of k (real_of c)).
+
+(* configuration inputs also influence the output; they are neither templates nor DSDL files and --list-inputs does not
+   name them: the completeness theorem excludes them explicitly *)
+Definition config_influences (c : cfg) : list path := l_properties (c_lang c) :: c_config_files c.
+Definition all_influences (k : code) (c : cfg) (i : inputs) : list path := influence_set k c i ++ config_influences c.
+Definition is_config_input (c : cfg) (x : path) : bool := path_in x (config_influences c).
 
 (* ---- triggers of the three ways list-inputs is incomplete --------------------------------- *)
 Definition is_root_key (i : inputs) (key : N) : bool := existsb (fun t => t_key t =? key) (i_roots i).
@@ -463,11 +545,13 @@ Definition is_root_key (i : inputs) (key : N) : bool := existsb (fun t => t_key 
 Definition trig_lookup (i : inputs) : bool :=
   negb (forallb (fun t => forallb (is_root_key i) (t_deps t)) (i_roots i)).
 (* the type generator loads a Python package file as a template (the only files the repaired get_templates does not list) *)
-Definition trig_py (c : cfg) (i : inputs) : bool :=
-  existsb (fun n => match resolve_name (chain c GTypes) n with Some f => tf_py f | None => false end) (i_loaded_types i).
+Definition trig_py (k : code) (c : cfg) (i : inputs) : bool := existsb tf_py (type_templates k c i).
 (* the type generator loads a template file whose suffix is not .j2 *)
-Definition trig_nonj2 (c : cfg) (i : inputs) : bool :=
-  existsb (fun n => match resolve_name (chain c GTypes) n with Some f => negb (tf_j2 f) | None => false end) (i_loaded_types i).
+Definition trig_nonj2 (k : code) (c : cfg) (i : inputs) : bool := existsb (fun f => negb (tf_j2 f)) (type_templates k c i).
+(* a support template that is rendered refers to further templates (--list-inputs names the rendered resources only) *)
+Definition has_refs (f : tfile) : bool := match tf_refs f with [] => tf_dyn f | _ => true end.
+Definition trig_sup_refs (k : code) (c : cfg) : bool :=
+  existsb has_refs (support_entries k c false) || existsb has_refs (support_entries k c true).
 (* --support-templates DIR shadows a packaged support template *)
 Definition trig_support_override (k : code) (c : cfg) : bool :=
   match c_support_templates c with
@@ -486,8 +570,8 @@ Definition support_consistent (c : cfg) : bool :=
 
 (* the triggers that remain for the tree under test: a repaired finding no longer restricts the completeness theorem *)
 Definition eff_trig_lookup (k : code) (i : inputs) : bool := negb (k_fix_lookup k) && trig_lookup i.
-Definition eff_trig_tpl (k : code) (c : cfg) (i : inputs) : bool := if k_fix_nonj2 k then trig_py c i else trig_nonj2 c i.
-Definition eff_trig_sup (k : code) (c : cfg) : bool := negb (k_fix_suptpl k) && trig_support_override k c.
+Definition eff_trig_tpl (k : code) (c : cfg) (i : inputs) : bool := if k_fix_nonj2 k then trig_py k c i else trig_nonj2 k c i.
+Definition eff_trig_sup (k : code) (c : cfg) : bool := (negb (k_fix_suptpl k) && trig_support_override k c) || trig_sup_refs k c.
 
 (* ---- decidable conditions on the translated code (proved for Gen_Listing.the_code by computation) ---- *)
 Definition is_pure_eact (a : eact) : bool :=
@@ -512,7 +596,7 @@ Definition is_list_gen (a : eact) : bool := match a with EListGenerate _ dry _ =
 Definition tr (k : code) (fl : flags) (nse : bool) : list eact := fst (trace fl (sgs_of k fl) nse (k_prog k) false).
 
 (* guards of the three leaf functions *)
-Definition guards_ok (k : code) : bool := k_guard_type k && k_guard_header k && k_guard_copy k.
+Definition guards_ok (k : code) : bool := k_guard_type k && k_guard_header k && k_guard_copy k && k_path_pure k.
 
 (* for every flag combination (and both values of the generator's namespace-type decision): *)
 Definition chk_pure (k : code) (fl : flags) (nse : bool) : bool :=
@@ -563,7 +647,7 @@ Fixpoint show_path (p : path) : str :=
   | x :: r => x ++ sep_slash :: show_path r
   end.
 Definition show_paths (l : list path) : str := flat_map (fun p => show_path p ++ [sep_semi]) l.
-Definition result_code (r : result) : N := match r with Ok => 0 | Rejected => 2 | NoTemplate => 1 | Exists => 3 end.
+Definition result_code (r : result) : N := match r with Ok => 0 | Rejected => 2 | NoTemplate => 1 | Exists => 3 | IoError => 4 end.
 
 (* one line-oriented report per case: results, listings, created files, influence set, triggers *)
 Definition cand_paths (k : code) (c : cfg) (i : inputs) : list path :=
@@ -576,8 +660,11 @@ Definition report (k : code) (c : cfg) (i : inputs) : str :=
   let '(_, o2, r2) := run k (lo_of c) i fs_empty in
   let '(_, o3, r3) := run k (li_of c) i fs_empty in
   let '(_, _, r4) := run k (dry_of c) i fs_empty in
+  let '(_, _, r5) := run k (real_of c) i f1 in
   [48 + result_code r1; 10; 48 + result_code r2; 10] ++ show_paths o2 ++ [10; 48 + result_code r3; 10] ++ show_paths o3
-  ++ [10; 48 + result_code r4; 10] ++ show_paths (filter f1 (dedup (cand_paths k (real_of c) i))) ++ [10]
+  ++ [10; 48 + result_code r4; 10] ++ show_paths (filter (fun p => is_file (f1 p)) (dedup (cand_paths k (real_of c) i))) ++ [10]
   ++ show_paths (influence_set k c i) ++ [10]
-  ++ [b2n (trig_lookup i); b2n (trig_nonj2 c i); b2n (trig_support_override k c); b2n (support_consistent c);
-      b2n (k_fix_lookup k); b2n (k_fix_nonj2 k); b2n (k_fix_suptpl k); b2n (trig_py c i)].
+  ++ [b2n (trig_lookup i); b2n (trig_nonj2 k c i); b2n (trig_support_override k c); b2n (support_consistent c);
+      b2n (k_fix_lookup k); b2n (k_fix_nonj2 k); b2n (k_fix_suptpl k); b2n (trig_py k c i); b2n (k_path_pure k); b2n (trig_sup_refs k c);
+      48 + result_code r5]
+  ++ [10] ++ show_paths (filter (fun p => is_dir (f1 p)) (dedup (flat_map parents (dedup (cand_paths k (real_of c) i))))).
